@@ -192,6 +192,137 @@ func c09ResultOwned(c *Ctx, p *core.Prog) {
 			}
 		}
 	}
+	// owned-storage-exported: the same question across helper objects and call chains. Objects the reusable Parser /
+	// Tokenizer own (struct types of their fields, transitively) are reused with them; a slice or map that is such an
+	// object's field value may travel between unexported functions, but must not come out of an exported one.
+	r.Rule("owned-storage-exported", "no exported function or method of pkg/sql/parser / pkg/sql/tokenizer returns a slice or map that is (a reslice of, or an append chain from) a field value of the reusable Parser / Tokenizer or of an object they own, directly or through unexported callees")
+	ownedT := map[*types.Named]bool{}
+	var addOwned func(n *types.Named)
+	addOwned = func(n *types.Named) {
+		if n == nil || ownedT[n] {
+			return
+		}
+		ownedT[n] = true
+		st := core.StructOf(n)
+		if st == nil {
+			return
+		}
+		for i := 0; i < st.NumFields(); i++ {
+			ft := core.NamedOf(core.Deref(st.Field(i).Type()))
+			if ft == nil || ft.Obj().Pkg() == nil || core.StructOf(ft) == nil {
+				continue
+			}
+			pp := ft.Obj().Pkg().Path()
+			if core.PathHasSuffix(pp, "pkg/sql/parser") || core.PathHasSuffix(pp, "pkg/sql/tokenizer") {
+				addOwned(ft)
+			}
+		}
+	}
+	var allFns []*ssa.Function
+	for _, rel := range []string{"pkg/sql/parser", "pkg/sql/tokenizer"} {
+		for _, fn := range p.SrcFuncs(rel) {
+			allFns = append(allFns, fn)
+			if fn.Signature.Recv() != nil && isPooled(fn.Signature.Recv().Type()) {
+				addOwned(core.NamedOf(core.Deref(fn.Signature.Recv().Type())))
+			}
+		}
+	}
+	type retKey struct {
+		fn *ssa.Function
+		i  int
+	}
+	ownedRet := map[retKey]string{}
+	// is v (an aggregate) storage of an owned object?
+	var ownedVal func(v ssa.Value, depth int) string
+	ownedVal = func(v ssa.Value, depth int) string {
+		if depth > 6 || v == nil {
+			return ""
+		}
+		v = baseOf(v, 0)
+		switch x := v.(type) {
+		case *ssa.UnOp:
+			if x.Op == token.MUL {
+				if fa, ok := x.X.(*ssa.FieldAddr); ok {
+					if n := core.NamedOf(core.Deref(fa.X.Type())); n != nil && ownedT[n] {
+						return n.Obj().Name() + "." + core.FieldName(fa.X.Type(), fa.Field)
+					}
+				}
+				// a local cell: what is stored into it
+				if al, ok := x.X.(*ssa.Alloc); ok {
+					for _, ref := range core.Referrers(al) {
+						if st, ok := ref.(*ssa.Store); ok && st.Addr == ssa.Value(al) {
+							if w := ownedVal(st.Val, depth+1); w != "" {
+								return w
+							}
+						}
+					}
+				}
+			}
+		case *ssa.Call:
+			if f := x.Call.StaticCallee(); f != nil {
+				return ownedRet[retKey{f, 0}]
+			}
+		case *ssa.Extract:
+			if c, ok := x.Tuple.(*ssa.Call); ok {
+				if f := c.Call.StaticCallee(); f != nil {
+					return ownedRet[retKey{f, x.Index}]
+				}
+			}
+		case *ssa.Phi:
+			for _, e := range x.Edges {
+				if w := ownedVal(e, depth+1); w != "" {
+					return w
+				}
+			}
+		}
+		return ""
+	}
+	for changed := true; changed; {
+		changed = false
+		for _, fn := range allFns {
+			res := fn.Signature.Results()
+			for i := 0; i < res.Len(); i++ {
+				if !isAggregate(res.At(i).Type()) || ownedRet[retKey{fn, i}] != "" {
+					continue
+				}
+				for _, b := range fn.Blocks {
+					ret, ok := b.Instrs[len(b.Instrs)-1].(*ssa.Return)
+					if !ok || i >= len(ret.Results) {
+						continue
+					}
+					if w := ownedVal(retOperand(ret, i), 0); w != "" {
+						ownedRet[retKey{fn, i}] = w
+						changed = true
+					}
+				}
+			}
+		}
+	}
+	nExp := 0
+	for _, fn := range allFns {
+		if fn.Parent() != nil || fn.Object() == nil || !fn.Object().Exported() {
+			continue
+		}
+		if rv := fn.Signature.Recv(); rv != nil {
+			if n := core.NamedOf(core.Deref(rv.Type())); n == nil || !n.Obj().Exported() {
+				continue
+			}
+		}
+		res := fn.Signature.Results()
+		for i := 0; i < res.Len(); i++ {
+			if !isAggregate(res.At(i).Type()) {
+				continue
+			}
+			nExp++
+			key := core.FnName(fn) + sprintf("|result#%d", i)
+			if w := ownedRet[retKey{fn, i}]; w != "" {
+				r.Violate("owned-storage-exported", key, p.FnPos(fn), "the returned value shares storage with "+w+", which belongs to a reusable (pooled) object: the next call on that object, or its next holder, overwrites what the caller still holds")
+			} else {
+				r.OK("owned-storage-exported", key, p.FnPos(fn), "fresh storage")
+			}
+		}
+	}
+	r.Floor("owned-storage-exported", nExp, 8, "slice/map results of exported functions of parser and tokenizer")
 	if r.Count("scratch-not-linked") == 0 {
 		r.OK("scratch-not-linked", "scan", "-", sprintf("%d methods use receiver slice fields; none links that storage into another object", nm))
 	}
